@@ -59,6 +59,7 @@ type FuncContract struct {
 	HasMod    bool
 	Loops     map[int][]*Clause
 	CallAsrt  []*Clause
+	Defines   []*Clause // definitional postconditions: name the result as a function of the arguments; assumed at call sites, not provable from the body (determinism), listed as assumptions
 	Inline    bool // verify by inlining at call sites (no contract)
 	Implements string
 	Signature string
@@ -182,7 +183,7 @@ func (c *Contracts) LoadContractFile(path, pkgPrefix string, trusted bool) error
 		}
 	}
 	// merge continuation lines: a line whose first token is not a keyword continues the previous one
-	keywords := map[string]bool{"func": true, "functype": true, "requires": true, "ensures": true, "proves": true, "let": true, "modifies": true,
+	keywords := map[string]bool{"func": true, "functype": true, "requires": true, "ensures": true, "proves": true, "defines": true, "let": true, "modifies": true,
 		"pure": true, "loop": true, "at": true, "spec": true, "ghost": true, "axiom": true, "lemma": true, "regex": true, "pred": true, "type": true, "smt": true,
 		"inline": true, "implements": true, "signature": true, "trusted": true, "nosafety": true, "opaque": true, "params": true, "results": true}
 	var merged []line
@@ -235,7 +236,7 @@ func (c *Contracts) LoadContractFile(path, pkgPrefix string, trusted bool) error
 				}
 				c.Funcs[name] = cur
 			}
-		case kw == "requires" || kw == "ensures" || kw == "proves":
+		case kw == "requires" || kw == "ensures" || kw == "proves" || kw == "defines":
 			if cur == nil {
 				return fmt.Errorf("%s:%d: %s outside func", path, l.no, kw)
 			}
@@ -248,6 +249,8 @@ func (c *Contracts) LoadContractFile(path, pkgPrefix string, trusted bool) error
 				cur.Requires = append(cur.Requires, cl)
 			case "ensures":
 				cur.Ensures = append(cur.Ensures, cl)
+			case "defines":
+				cur.Defines = append(cur.Defines, cl)
 			case "proves":
 				cur.Proves = append(cur.Proves, cl)
 			}
